@@ -486,6 +486,13 @@ def check_h5(ctx, tu, info):
             for (_top, g, n) in subs:
                 a = g.strip_all_casts(g.nodes[n]['args'][1])
                 vals.add(g.nodes[a].get('cv', g.nodes[a].get('value')))
+            # std::get<I>(callbackListList) is the same element access with the index as a template argument
+            gets_ = f.deep_calls(lambda g, n: g.nodes[n]['cls'] == 'CallExpr' and (g.callee_key(n) or '') == 'std::get' and g.call_args(n)
+                                 and 'callbackListList' in fields_in(path(g, g.call_args(n)[0])), depth=3)
+            for (_top, g, n) in gets_:
+                m_ = re.match(r'std::get<(\d+)', (g.callee(n) or {}).get('q', ''))
+                vals.add(int(m_.group(1)) if m_ else None)
+            subs = subs + gets_
             ctx.ob('C14.H5', f, 'doGetCallbackList<PI> touches only slot PI::index', vals == {pi[0]} and bool(subs),
                    detail='subscripts %s, index %s' % (sorted(v for v in vals if v is not None), pi[0]))
         if f.skey == 'HeterCallbackListBase::operator()':
